@@ -80,7 +80,7 @@ def _canon_abstract(parser):
     return tuple(out)
 
 
-def check_history(alpha, hist, from_step=0, collect_state=None, prefilled=False):
+def check_history(alpha, hist, from_step=0, collect_state=None, prefilled=False, via_generator=False):
     """Run one history on a fresh parser with the reference model in lockstep.
     Returns (violation or None, n_emitted, matched_end_seen). Steps < from_step are replayed and modelled
     but not judged (they were judged as part of an earlier history with the same prefix)."""
@@ -88,17 +88,38 @@ def check_history(alpha, hist, from_step=0, collect_state=None, prefilled=False)
     ref = {'ord': {}, 'trace': {}}
     emitted = 0
     matched = 0
+    gen_out = None
+    if via_generator:
+        # the same events through the lazy entry point that PyKdebugParser.traces uses; a trace is attributed to the step whose
+        # event had just been pulled when it came out
+        gen_out = {}
+        cur = [0]
+
+        def src():
+            for i_, s_ in enumerate(hist):
+                cur[0] = i_
+                yield alpha.events[i_][s_]
+        try:
+            for tr in p.feed_generator(src()):
+                if cur[0] in gen_out:
+                    return ('two-traces-for-one-event', cur[0], ''), emitted, matched
+                gen_out[cur[0]] = tr
+        except Exception as ex:
+            return ('raised:' + type(ex).__name__, cur[0], repr(ex)), emitted, matched
     for i, s in enumerate(hist):
         t, ci, q = alpha.syms[s]
         name, code, decodable, dom, fragcap = alpha.codes[ci]
         e = alpha.events[i][s]
         judge = i >= from_step
         stray = False
-        before = canon(p) if (judge and q == 2) else None
-        try:
-            got = p.feed(e)
-        except Exception as ex:  # the pairing layer must never raise on these codes
-            return ('raised:' + type(ex).__name__, i, repr(ex)), emitted, matched
+        before = canon(p) if (judge and q == 2 and not via_generator) else None
+        if via_generator:
+            got = gen_out.get(i)
+        else:
+            try:
+                got = p.feed(e)
+            except Exception as ex:  # the pairing layer must never raise on these codes
+                return ('raised:' + type(ex).__name__, i, repr(ex)), emitted, matched
         # ---- reference model step
         d = ref[dom].setdefault(t, {})
         exp = None
@@ -195,6 +216,9 @@ ALPHABETS = {
     'T3': (['BSC_getpid', 'TRACE_DATA_EXEC', 'U'], (1, 2, 3)),
     # codes that share the kdebug class (7) / subclass (0x700) of the trace-domain codes without being trace-domain
     'C7': (['BSC_getpid', 'TRACE_DATA_EXEC', 'K:TRACE_LOST_EVENTS', 'U:0x07000020'], (1, 2)),
+    # decodable records whose decoders have side effects keyed by their ARGUMENT words (the argument words are 1,2,3,4: word 0
+    # names thread 1, word 1 names thread 2): thread-terminate, new-thread, terminate-pid, sampler thread data
+    'SIDE': (['BSC_getpid', 'TRACE_DATA_THREAD_TERMINATE', 'TRACE_DATA_NEWTHREAD', 'TRACE_DATA_THREAD_TERMINATE_PID', 'PERF_THD_Data'], (1, 2)),
 }
 _ALPHA = {}
 
@@ -216,7 +240,7 @@ class C04(Check):
             'reference model of the statement in lockstep (every maximal history is run; each shorter history is '
             'judged as a prefix exactly once). Cases are distinct by construction (each element of the product is '
             'enumerated once); non-trivial = the history contains at least one END that matches an open START of '
-            'the same code on the same thread. Alphabets marked +map are fed to a parser whose thread map was already populated when it was built. states = distinct canonical window-table states (positions '
+            'the same code on the same thread. Alphabets marked +gen go through feed_generator (the lazy entry point PyKdebugParser.traces uses) instead of feed(); alphabets marked +map are fed to a parser whose thread map was already populated when it was built. states = distinct canonical window-table states (positions '
             'abstracted) reached at the end of a history; transitions = real feed() calls.')
     assumptions = (
         'codes used: BSC_getpid/BSC_getuid (ordinary), TRACE_DATA_EXEC/TRACE_STRING_PROC_EXIT (trace domain), '
@@ -229,8 +253,8 @@ class C04(Check):
 
     def plan(self):
         if self.tier == 'quick':
-            return [('A40', 4), ('FRAG', 3), ('T3', 3), ('C7', 4), ('A16+map', 4), ('T3+map', 3)]
-        return [('A40', 5), ('A16', 6), ('FRAG', 4), ('A48', 4), ('T3', 4), ('C7', 5), ('A40+map', 4), ('T3+map', 4)]
+            return [('A40', 4), ('FRAG', 3), ('T3', 3), ('C7', 4), ('A16+map', 4), ('T3+map', 3), ('SIDE', 3), ('A16+gen', 4), ('C7+gen', 3), ('T3+gen', 3)]
+        return [('A40', 5), ('A16', 6), ('FRAG', 4), ('A48', 4), ('T3', 4), ('C7', 5), ('A40+map', 4), ('T3+map', 4), ('SIDE', 4), ('A40+gen', 4), ('C7+gen', 4), ('T3+gen', 4)]
 
     def bounds(self):
         return {'spaces': [{'alphabet': a, 'symbols': len(alphabet(a).syms), 'depth': d,
@@ -297,7 +321,7 @@ class C04(Check):
                 while hist[from_step] == prev[from_step]:
                     from_step += 1
             prev = hist
-            bad, emitted, matched = check_history(alpha, hist, from_step, states, prefilled=a.endswith('+map'))
+            bad, emitted, matched = check_history(alpha, hist, from_step, states, prefilled='+map' in a, via_generator='+gen' in a)
             acc.case(nontrivial=matched > 0, transitions=d, outcome=None)
             if emitted:
                 acc.count('histories_emitting_traces')
@@ -317,7 +341,7 @@ class C04(Check):
             self.run_long(('long', case['long'][0], case['long'][1]), acc)
             return [(sig, v['cases'][0][1]) for sig, v in acc.violations.items()]
         alpha = alphabet(case['alphabet'])
-        bad, _, _ = check_history(alpha, tuple(case['history']), 0, None, prefilled=case['alphabet'].endswith('+map'))
+        bad, _, _ = check_history(alpha, tuple(case['history']), 0, None, prefilled='+map' in case['alphabet'], via_generator='+gen' in case['alphabet'])
         return [(bad[0], {'step': bad[1], 'detail': bad[2]})] if bad else []
 
 
